@@ -38,7 +38,7 @@ type Syntax struct {
 	StrMapKeys bool
 	// NoMulti suppresses multi-assignment statements.
 	NoMulti bool
-	loopSeq      int
+	loopSeq int
 }
 
 func NewSyntax(r *rand.Rand) *Syntax {
